@@ -1167,12 +1167,15 @@ impl MetaDirective {
     }
 
     pub(crate) fn argument_sdl(&self, argument: &MetaInputValue) -> String {
-        let argument_default = match &argument.default_value {
-            Some(default) => format!(" = {default}"),
-            None => "".to_string(),
-        };
+        let mut sdl = String::new();
 
-        format!("{}: {}{}", argument.name, argument.ty, argument_default)
+        self::export_sdl::write_input_value(&mut sdl, argument);
+
+        for directive in &argument.directive_invocations {
+            write!(sdl, " {}", directive.sdl()).ok();
+        }
+
+        sdl
     }
 }
 
